@@ -86,6 +86,29 @@ CLAIMED = {
              "handler) are evaluated by TLC on recorded histories with the real 10 ms polling.",
         note="Liveness on the implementation is bounded response under virtual time; the model abstracts to one source and tick time.",
         design_ref="DESIGN.md §5 C15"),
+    "C16": dict(
+        engine="Signing",
+        technique="TLA+ spec Signing.tla (build/throttle/stamp/sign/transmit/verify pipeline over character classes MEASURED from "
+                  "urlencode and aiohttp) model-checked with TLC; every value shape concretised through every authenticated entry "
+                  "point of the real clients into a loopback server that verifies HMAC-SHA256 over the raw bytes; requests judged by "
+                  "TLC (ApiTrace.tla / SigningProps.tla)",
+        text="Model-checked rule (signed bytes = transmitted bytes for every endpoint placement and every class string up to length "
+             "2-3, timestamp taken after the limiter wait, nonces unique) + one implementation request per concretised value and "
+             "entry point (36 Binance + 11 Bitstamp calls) verified by an independent server implementation + seeded random client ids.",
+        note="TLA+ says nothing about HMAC itself or about characters inside a class behaving alike beyond the measured atoms; the "
+             "loopback server (about 40 lines) is trusted as the exchanges' documented check. Freshness uses real time (500 ms).",
+        design_ref="DESIGN.md §5 C16, §6"),
+    "C17": dict(
+        engine="WireFormat",
+        technique="TLA+ spec WireFormat.tla (fixed-point rule on digit sequences, timestamp limbs, status alphabets, endpoint routing "
+                  "table) evaluated by TLC on one implementation record per (digits, exponent) x order entry point received by a "
+                  "loopback server and on wrapper objects built from generated payloads (ApiTrace.tla)",
+        text="Every decimal of the grid {1,10,85,100,123,1050} x 10^-14..14 (within 1e-12..1e12) through every order entry point of both "
+             "exchanges: the received text must be plain and numerically equal; unset options omitted; operation/pair/type select the "
+             "documented path, side and symbol; ms/us timestamps 2010-2100 and every listed status decode as the rule says.",
+        note="Codec-heavy: TLA+ contributes the rule and the enumeration, the loopback server and the wrapper objects the facts. "
+             "Status alphabets are those listed in WireFormat.tla (DESIGN.md §7 O5).",
+        design_ref="DESIGN.md §5 C17, §6"),
     "C18": dict(
         engine="WsClient",
         technique="TLA+ spec WsClient.tla (main loop + message/subscribe/reconnect tasks + fault-injecting peer) model-checked with TLC "
